@@ -113,12 +113,22 @@ def live(ctx):
     return ctx._c07
 
 
-def numeric_params(ctx):
+def numeric_params(ctx, level=None):
+    """float / int parameters of every class.  level='reader' / 'module' in the quick tier: one representative per
+    distinct declaration (ReadParameter sees nothing else) resp. per (declaration, chain of read_parameters functions the
+    class inherits) - subclasses that re-declare nothing and override nothing are swept in the thorough tier."""
     model, srcs, rows, idx = live(ctx)
+    classes = {c.__name__: c for _, c in paramtable.module_classes()}
+    seen = set()
     for cls, o in srcs:
+        chain = tuple(id(vars(k)['read_parameters']) for k in classes[cls].__mro__ if 'read_parameters' in vars(k))
         for name, p in o.ParameterDict.items():
             r = rows[idx[(cls, name)]]
             if r['kind'] in ('KFloat', 'KInt'):
+                sig = (name, r['kind'], r['default'], r['value'], r['min'], r['max'], tuple(r['runs'])) + (chain if level == 'module' else ())
+                if level and ctx.quick and sig in seen:
+                    continue
+                seen.add(sig)
                 yield cls, o, name, p, idx[(cls, name)], r
 
 
@@ -155,7 +165,7 @@ def table_layer(ctx):
 def reader_layer(ctx):
     model = live(ctx)[0]
     cases = []
-    for cls, o, name, p, i, r in numeric_params(ctx):
+    for cls, o, name, p, i, r in numeric_params(ctx, 'reader'):
         for tag, s, v in rp.probes(r, ctx.rng, extra=ctx.n(0, 8)):
             cases.append(mk('reader', cls, name, i, tag, s, v, rp.observe_reader(p, name, s, model)))
     judge(ctx, 'reader', cases, compare_model=True)
@@ -166,7 +176,7 @@ def module_layer(ctx):
     model = live(ctx)[0]
     pkgs = {c.__name__: (pkg, c) for pkg, c in paramtable.module_classes()}
     cases = []
-    for cls, o, name, p, i, r in numeric_params(ctx):
+    for cls, o, name, p, i, r in numeric_params(ctx, 'module'):
         for tag, s, v in rp.probes(r, ctx.rng, extra=ctx.n(0, 3)):
             if tag in LAYER_TAGS or not ctx.quick and tag in ('inside', 'far-below'):   # 'N.0' / sentinels: reader level only
                 cases.append(mk('module', cls, name, i, tag, s, v, rp.observe_module(*pkgs[cls], model, name, s)))
@@ -251,7 +261,7 @@ def family_layer(ctx):
     if ctx.quick:                       # quick: every prio job + a seeded sample of the rest
         rest = [j for j in jobs if not j['prio']]
         ctx.rng.shuffle(rest)
-        jobs = [j for j in jobs if j['prio']] + rest[:600]
+        jobs = [j for j in jobs if j['prio']] + rest[:300]
         jobs.sort(key=lambda j: (j['family'], j['cls'], j['name'], j['tag'], j['s'], j.get('alias') or ''))
     res = pool_map(ctx, rp.family_read, [job_tuple(ctx, j) for j in jobs])
     rows, idx = live(ctx)[2], live(ctx)[3]
@@ -304,7 +314,7 @@ def tjudge(ctx, layer, cases, compare_model):
     """cases: dicts i, s, strict, o (observed, token vocabulary), tag, kind, cls, name -> verdicts evaluated in Coq"""
     def body(fn, cs):
         return lambda lo, hi: (f'run_tcases {fn} param_table [\n ' + ';\n '.join(
-            f'({c["i"]}%nat, {rp.tok_of(c["s"])}, {"true" if c["strict"] else "false"}, '
+            f'({c["i"]}%nat, {rp.tok_of(c["s"])}, {"true" if c["strict"] else "false"}, {"true" if c.get("named") else "false"}, '
             + ('None' if c.get('else_to') is None else f'Some ({c["else_to"]})%Z') + f', {rp.tout_lit(c["o"])})' for c in cs[lo:hi]) + ']')
     both = '(fun t c => tcase_agrees t c && tcase_spec t c)' if compare_model else 'tcase_spec'
     bad = fw.kernel_eval(ctx, layer + '-verdict', TREQ, body(both, cases), len(cases), shard=400) if cases else []
@@ -349,18 +359,19 @@ def token_layer(ctx):
                     inp={'layer': 'option-table', 'cls': o['cls'], 'name': o['name']})
     kind = {'KFloat': 'float', 'KInt': 'int'}
     rd, md = [], []
-    for cls, o_, name, p, i, r in numeric_params(ctx):          # nan / inf / junk for EVERY float and int parameter
+    for cls, o_, name, p, i, r in numeric_params(ctx, 'reader'):   # nan / inf / junk for every float and int declaration
         for tag, s in (('nan', 'nan'), ('inf', 'inf'), ('-inf', '-inf'), ('text', 'junk')):
-            base = dict(i=i, s=s, strict=False, tag=tag, kind=kind[r['kind']], cls=cls, name=name)
-            rd.append(dict(base, o=rp.observe_tok_reader(p, name, s, model)))
-            if tag in ('nan', 'inf'):
-                md.append(dict(base, o=rp.observe_tok_module(*pkgs[cls], model, name, s)))
+            rd.append(dict(i=i, s=s, strict=False, tag=tag, kind=kind[r['kind']], cls=cls, name=name, o=rp.observe_tok_reader(p, name, s, model)))
+    for cls, o_, name, p, i, r in numeric_params(ctx, 'module'):
+        if r['kind'] == 'KInt':
+            for tag, s in (('nan', 'nan'), ('inf', 'inf')):
+                md.append(dict(i=i, s=s, strict=False, tag=tag, kind='int', cls=cls, name=name, o=rp.observe_tok_module(*pkgs[cls], model, name, s)))
     for o in opts:
         p = objs[o['cls']].ParameterDict[o['name']]
         for tag, s in option_probes(rows[o['i']], o):
             base = dict(i=o['i'], s=s, tag=tag, kind='int', cls=o['cls'], name=o['name'])
             rd.append(dict(base, strict=False, o=rp.observe_tok_reader(p, o['name'], s, model)))
-            md.append(dict(base, strict=o['strict'], else_to=o['else_to'], o=rp.observe_tok_module(*pkgs[o['cls']], model, o['name'], s)))
+            md.append(dict(base, strict=o['strict'], named=o['named'], else_to=o['else_to'], o=rp.observe_tok_module(*pkgs[o['cls']], model, o['name'], s)))
     tjudge(ctx, 'tok-reader', rd, compare_model=True)
     tjudge(ctx, 'tok-module', [c for c in md if c['kind'] == 'int'], compare_model=True)     # (float nan at module level: family layer)
     # Model.read_parameters: options in every family, nan for a seeded sample of float parameters
@@ -373,7 +384,7 @@ def token_layer(ctx):
             for o in opts:
                 if o['cls'] == cls:
                     jobs += [dict(family=fam, base=base_text, cls=cls, name=o['name'], i=o['i'], s=s, tag=tag, kind='int', strict=o['strict'],
-                                  else_to=o['else_to']) for tag, s in option_probes(rows[o['i']], o) if tag != 'blank']  # (the tokenizer strips blanks)
+                                  named=o['named'], else_to=o['else_to']) for tag, s in option_probes(rows[o['i']], o) if tag != 'blank']  # (the tokenizer strips blanks)
     nanj = [dict(family=j['family'], base=j['base'], cls=j['cls'], name=j['name'], i=j['i'], s='nan', tag='nan', kind='float', strict=False)
             for j in family_jobs(ctx) if j['tag'] == 'min' and rows[j['i']]['kind'] == 'KFloat' and not j.get('alias') and j['kind'] == 'g']
     ctx.rng.shuffle(nanj)
@@ -386,7 +397,7 @@ def token_layer(ctx):
             continue
         cls = cls if (cls, j['name']) in idx else j['cls']
         oo = strict_of.get((cls, j['name']), j)
-        fam_cases.append(dict(j, cls=cls, i=idx[(cls, j['name'])], strict=oo['strict'], else_to=oo.get('else_to'), o=o))
+        fam_cases.append(dict(j, cls=cls, i=idx[(cls, j['name'])], strict=oo['strict'], named=oo.get('named'), else_to=oo.get('else_to'), o=o))
     ctx.count('tok-family', later_errors_for_members=later)
     tjudge(ctx, 'tok-family', fam_cases, compare_model=False)
 
